@@ -81,7 +81,7 @@ inductive WErr
   | ctlInURI
   | contentLengthNilBody
   | bodyLength
-deriving Repr, BEq, DecidableEq
+deriving Repr, DecidableEq
 
 def methodOrGet (m : Bytes) : Bytes := if m.isEmpty then sGET else m
 
@@ -101,7 +101,7 @@ structure Framing where
   chunked : Bool
   /-- `t.ContentLength` (-1 unknown) -/
   cl : Int
-deriving Repr, BEq, DecidableEq
+deriving Repr, DecidableEq
 
 /-- `newTransferWriter` (+ `outgoingLength`, `shouldSendChunkedRequestBody`, `probeRequestBody` on an
 in-memory body; `r.TransferEncoding` and `r.Trailer` are never set by req's client). -/
@@ -136,7 +136,7 @@ def framingFields (r : WReq) (f : Framing) : Hdr :=
 key unless in header-order mode. -/
 def writeSubset (h : Hdr) (exclude : List Bytes) (orderMode : Bool) : Hdr :=
   let kept := h.filter fun kv => !exclude.contains kv.key
-  let ordered := if orderMode then kept else kept.mergeSort fun a b => le a.key b.key
+  let ordered := if orderMode then kept else isortBy (fun a b => le a.key b.key) kept
   (ordered.filter fun kv => validHeaderFieldName kv.key).map fun kv =>
     ⟨kv.key, kv.values.map sanitizeValue⟩
 
